@@ -59,6 +59,16 @@ CHECKS = {
         "Passes that only set attributes are not visible in the 'changed' statistics (structural hash); rtl-only passes are not switched on.",
         "DESIGN.md section 2 C06",
     ),
+    "C09": (
+        "exploration",
+        "Hypothesis bodies (full-alphabet lexeme soup) x 6 opaque tags x 10 embedding contexts x with/without wiki database; oracle: node "
+        "text == body modulo a strict reference entity grammar, node-class multiset equal to the plain-body parse, uniq round trip",
+        "Tens of thousands of generated (tag, body, context) triples per run; the body alphabet contains every construct that would build a "
+        "node if interpreted (markup, templates, parameters, HTML/include tags, comments, entities).",
+        "A <ref> context is only exercised on the expander path; one leading newline after <pre> may be dropped; comments are removed by the "
+        "uniquifier by design and excluded from the round-trip comparison, as are nowiki regions (restored as their inner text).",
+        "DESIGN.md section 2 C09",
+    ),
     "C10": (
         "exploration",
         "exhaustive itertools.product over scanner lexeme sequences (<=3 full table, 4 core table; thorough <=4 full) + "
